@@ -152,6 +152,33 @@ def _defs_of(scope_node, name):
     return out
 
 
+def fi_node_of(e):
+    p = getattr(e, "_parent", None)
+    while p is not None and not isinstance(p, (ast.FunctionDef, ast.AsyncFunctionDef)):
+        p = getattr(p, "_parent", None)
+    return p
+
+
+def _at_most_one_element(e, fn_node):
+    """a condition on the way to `e` (a name) says `len(e) == 1` / `<= 1` / `< 2` (or the negation of `!= 1` / `> 1` / `>= 2`, as left behind by
+    `if len(x) != 1 or ..: raise`): a collection of one element has no iteration order"""
+    if not isinstance(e, ast.Name) or fn_node is None:
+        return False
+    from sa.cfg import expr_guards, facts
+    for t, pol in expr_guards(e, stop=fn_node):
+        for atom, p_ in facts(t, pol):
+            if not (isinstance(atom, ast.Compare) and len(atom.ops) == 1 and isinstance(atom.left, ast.Call) and isinstance(atom.left.func, ast.Name)
+                    and atom.left.func.id == "len" and atom.left.args and isinstance(atom.left.args[0], ast.Name) and atom.left.args[0].id == e.id
+                    and isinstance(atom.comparators[0], ast.Constant) and isinstance(atom.comparators[0].value, int)):
+                continue
+            op, k = atom.ops[0], atom.comparators[0].value
+            if p_ and ((isinstance(op, ast.Eq) and k in (0, 1)) or (isinstance(op, ast.LtE) and k <= 1) or (isinstance(op, ast.Lt) and k <= 2)):
+                return True
+            if not p_ and ((isinstance(op, ast.NotEq) and k in (0, 1)) or (isinstance(op, ast.Gt) and k <= 1) or (isinstance(op, ast.GtE) and k <= 2)):
+                return True
+    return False
+
+
 def _reaching_defs(scope_node, name, use):
     """The value expressions of the plain assignments `name = <expr>` that can be in force at `use` (None entries for bindings we
     cannot see through); None when the question is not decided here (the name is bound by a loop / with / tuple target, or a
@@ -324,6 +351,9 @@ def rule_det1(prog, rep, tier, scope=None, accepted=None):
                         effect = None if _consumer_chain_insensitive(p) else "ordered result: %s" % src(p, 80)
                 else:
                     observing = None  # passed to a function: handled through parameter propagation
+            if observing is not None and effect is not None and _at_most_one_element(e, fi_node_of(e)):
+                rep.ob("DET-1", "%s: %s" % (where, observing), "holds", loc(prog, e), "the collection has at most one element here (a `len(..)` condition on the way): there is no order to observe")
+                continue
             if observing is None:
                 rep.ob("DET-1", "%s: %s used order-insensitively" % (where, src(e, 70)), "holds", loc(prog, e), "membership / truthiness / len / sorted / set algebra / parameter")
                 continue
